@@ -417,7 +417,7 @@ fn configs(tier: Tier) -> Vec<(C06, usize)> {
         let fin = [Fin::AndLeave, Fin::WithMessage, Fin::AndClear, Fin::AbandonWithMessage, Fin::Abandon, Fin::AndLeave, Fin::WithMessage, Fin::AndClear, Fin::AndLeave, Fin::Abandon, Fin::WithMessage, Fin::AndLeave, Fin::AndClear, Fin::AndLeave][k];
         match tier {
             Tier::Quick => {
-                v.push((C06 { flavour, fin, reduced: false }, if flavour == Flavour::RemovedFromMulti { 3 } else { 2 }));
+                v.push((C06 { flavour, fin, reduced: false }, if flavour == Flavour::RemovedFromMulti { 3 } else { 3 }));
                 v.push((C06 { flavour, fin, reduced: true }, if flavour == Flavour::RemovedFromMulti { 4 } else { 4 }));
             }
             Tier::Thorough => {
